@@ -76,6 +76,55 @@ def skeletons(tier, seed):
         kw2 = dict(kw)
         kw2["bool_route"] = False
         items.append((name + "[collapsed]", gen.collapse_params(prog), kw2))
+    # explicit disjunction / negated conjunction in clause bodies: the real program uses ';' and \\+( , ) inline, the
+    # reference program the equivalent auxiliary predicates (the AST of the reference has conjunctive bodies only)
+    from vlib.gen import A, P, N
+    for i in range(40 if tier == "quick" else 600):
+        r = _r.Random("c01or/%s/%s" % (seed, i))
+        facts = [("ad", [("p1", A("a"))], []), ("ad", [("p2", A("b"))], []), ("ad", [("p3", A("f"))], []), ("ad", [("p4", A("g"))], [])]
+        ref = list(facts) + [("fact", A("dom", "1")), ("fact", A("dom", "2"))]
+        lines = [gen.stmt_str(x) for x in ref]
+        e_cl = [("rule", A("e", "1"), [P(A("a"))])]
+        if r.random() < 0.7:
+            e_cl.append(("rule", A("e", "1"), [P(A("b"))]))
+        if r.random() < 0.5:
+            e_cl.append(("rule", A("e", "2"), [P(A("b")), N(A("a"))]))
+        ref += e_cl
+        lines += [gen.stmt_str(x) for x in e_cl]
+        cyc = r.random() < 0.6
+        d1, d2 = ("e(X)", "q(X)") if r.random() < 0.5 else ("q(X)", "e(X)")
+        guard = r.choice(["", "", ", g"])
+        # p(X) :- dom(X), (d1 ; d2) [, g].
+        lines.append("p(X) :- dom(X), (%s ; %s)%s." % (d1, d2, guard))
+        gl = [P(A("g"))] if guard else []
+        ref.append(("rule", A("p", "X"), [P(A("dom", "X")), P(A("or1", "X"))] + gl))
+        ref.append(("rule", A("or1", "X"), [P(A(d1[0], "X"))]))
+        ref.append(("rule", A("or1", "X"), [P(A(d2[0], "X"))]))
+        if cyc:
+            lines.append("q(X) :- p(X).")
+            ref.append(("rule", A("q", "X"), [P(A("p", "X"))]))
+        lines.append("q(1) :- f.")
+        ref.append(("rule", A("q", "1"), [P(A("f"))]))
+        if r.random() < 0.5:
+            # a negated conjunction: s :- g, \\+(a, f).
+            lines.append("s :- g, \\+(a, f).")
+            ref.append(("rule", A("s"), [P(A("g")), N(A("nc"))]))
+            ref.append(("rule", A("nc"), [P(A("a")), P(A("f"))]))
+            qs = [A("s")]
+        else:
+            qs = []
+        qs += [A("e", "1"), A("p", "1"), A("q", "1"), A("p", "2")]
+        r.shuffle(qs)
+        qs = qs[: r.randint(2, 4)]
+        if r.random() < 0.3:
+            ev = (A("q", "1"), r.random() < 0.5)
+            if ev[0] not in qs:
+                ref.append(("evidence", ev[0], ev[1]))
+                lines.append(gen.stmt_str(("evidence", ev[0], ev[1])))
+        for q in qs:
+            ref.append(("query", q))
+            lines.append(gen.stmt_str(("query", q)))
+        items.append(("bodyor/%d/%d" % (seed, i), ref, {"text": "\n".join(lines) + "\n"}))
     if tier == "thorough":
         for i in range(150):
             prog = gen.generate(seed, 100000 + i, max_choices=24)
